@@ -109,6 +109,15 @@ class Program:
                 self.modules[modname] = m
                 self._index_module(m)
         self._attr_types_cache: dict[str, dict[str, str]] = {}
+        # private read-only properties and tail-call decorators are unfolded (sa/sugar.py); the tables are rebuilt over the result
+        from .sugar import normalise as _unsugar
+
+        self.sugar_normalisation = _unsugar(self)
+        if self.sugar_normalisation:
+            self.classes = {}
+            for m in self.modules.values():
+                m.imports, m.classes, m.functions, m.consts = {}, {}, {}, {}
+                self._index_module(m)
         # method-less NamedTuple records are erased to the tuples they are (sa/records.py); the tables are rebuilt over the result
         from .records import erase
 
